@@ -16,6 +16,9 @@ PURE = re.compile(
     r"|core::ops::bit::Not>::not$|core::ops::arith::(Add|Sub|Mul|Div)(<.*>)?>::(add|sub|mul|div)$")
 
 
+CONTAINER_ADD = re.compile(r"::(insert|push|push_back|push_front|extend|append|entry|push_str)$")
+
+
 def _ops_of(rv):
     k = rv[0]
     if k in ("use", "rep"):
@@ -36,7 +39,7 @@ def _ops_of(rv):
 
 
 class Taint:
-    def __init__(self, fn, seed_place=None, seed_call=None, pure=None, seed_locals=()):
+    def __init__(self, fn, seed_place=None, seed_call=None, pure=None, seed_locals=(), containers=False):
         """seed_place(place)->bool : reading this place yields a tainted value
            seed_call(terminator)->bool : the result of this call is tainted
            pure: regex of additional value-propagating callees"""
@@ -44,6 +47,7 @@ class Taint:
         self.seed_place = seed_place or (lambda pl: False)
         self.seed_call = seed_call or (lambda t: False)
         self.pure = pure
+        self.containers = containers   # a collection that receives a tainted element (insert / push / extend) becomes tainted itself
         self.T = set(seed_locals)
         self._run()
 
@@ -83,6 +87,23 @@ class Taint:
                     if self.seed_call(t) or (self._is_pure(t.get("callee")) and any(self.op_tainted(a) for a in t["args"])):
                         self.T.add(t["dst"][0])
                         changed = True
+                if self.containers and t["t"] == "call" and len(t["args"]) >= 2 and CONTAINER_ADD.search(t.get("callee") or "") and \
+                        any(self.op_tainted(a) for a in t["args"][1:]) and t["args"][0][0] != "k":
+                    l = t["args"][0][1][0]
+                    for _ in range(6):
+                        if l not in self.T:
+                            self.T.add(l)
+                            changed = True
+                        d = fn.def_of(l)
+                        if d is None or d[0] != "s":
+                            break
+                        rv = fn.rvalue_at(d)
+                        if rv[0] in ("ref", "ptr"):
+                            l = rv[2][0]
+                        elif rv[0] == "use" and rv[1][0] != "k":
+                            l = rv[1][1][0]
+                        else:
+                            break
 
     def sinks(self):
         """every place a tainted value is consumed other than by plain propagation:
